@@ -71,6 +71,17 @@ func makerScenario(r *Run, seed int64, chain, typ, ending string, attach func(p 
 		ch := 1 + p.rng.Intn(2)
 		return p.rng.Intn(ch + 1), ch, p.rng.Intn(4) == 0
 	}
+	if chain == "lbtc" && seed%3 == 0 {
+		// from the moment the opening transaction is out, the Liquid wallets' fee estimation fails (elementsd's
+		// estimatesmartfee erroring or timing out): the spends are built with the fallback fee
+		p.w.Subscribe(func(e *sim.Event) {
+			if e.Kind == "wallet.open" {
+				if x, ok := e.P.(sim.EvTx); ok && x.Chain == "lbtc" && x.Err == "" {
+					p.A.LbtcW.FeeErr, p.B.LbtcW.FeeErr = true, true
+				}
+			}
+		})
+	}
 	if attach != nil {
 		attach(p)
 	}
